@@ -8,7 +8,7 @@ AllAligns == {"bottom", "center", "top"}
 Q_Extra == {<<2, 1>>, <<1, 0>>}
 F_Extra == {<<2, 1>>, <<1, 0>>, <<3, 2>>}
 Ints(c) == IF c.mode = "data" THEN [t \in 1..c.n |-> [ch \in 1..c.nch |-> <<DataRe(t, ch), DataIm(t, ch)>>]] ELSE <<>>
-Emit == done => CSVWrite("%1$s", <<ToJson([c |-> cs, x |-> Ints(cs),
+Emit == xs # NoXs => CSVWrite("%1$s", <<ToJson([c |-> cs, xs |-> xs, x |-> Ints(cs),
                     st |-> [n |-> res.st.n, nch |-> res.st.nch, align |-> res.st.align, rate |-> res.st.rate,
                             cf |-> res.st.cf, labels |-> [i \in 1..res.st.nch |-> Label(res.st, i - 1)], d |-> res.st.d],
                     inlabels |-> [i \in 1..cs.nch |-> Label(Sig(cs), i - 1)]])>>, IOEnv.GEN_OUT)
